@@ -74,6 +74,16 @@ def seeds(rng, kind):
         b = bytearray(lv3)
         put(b, offs[3], 8, 0)
         out.append(('lv3-child-is-root', bytes(b), [], False, None))
+        # one file entry whose 64-bit data offset lies where the file underneath refuses to go (>= 2^63), its siblings intact: the
+        # entry cannot be read, the others can
+        tree = {'a.bin': b'A' * 40, 'b.bin': b'B' * 50, 'c.bin': b'C' * 60, 'd': {'e.bin': b'E' * 70}}
+        lv3, info = RB.pack_lv3(tree)
+        wide = [f for f in info['fields'] if f[2].endswith('.data_offset')]
+        for k, f in enumerate(wide[:2]):
+            for v in (1 << 63, (1 << 64) - 1):
+                b = bytearray(lv3)
+                b[f[0]:f[0] + 8] = v.to_bytes(8, 'little')
+                out.append((f'lv3-unreadable-entry{k}-{v:#x}', bytes(b), [], False, None))
     elif kind == 'exefs':
         for t in range(2):
             files = [(nm, pyenv.rbytes(rng, rng.choice([0, 5, 0x200, 0x233]))) for nm in rng.sample(['.code', 'icon', 'banner', 'logo', 'x'], rng.randrange(1, 5))]
@@ -132,9 +142,14 @@ def seeds(rng, kind):
         img = NB.header_bytes(pyenv.rbytes(rng, 0x100), 0x200000, table, pyenv.rbytes(rng, 94), pyenv.rbytes(rng, 0x42))
         out.append(('nandhdr#0', img, word_fields(0x100, 0x160) + [(0x110 + i, 1, f'fs{i}') for i in range(8)] + [(0x118 + i, 1, f'crypt{i}') for i in range(8)], False, None))
     elif kind in ('disa', 'diff'):
-        for t in range(3):
+        for t in range(4):
             g = sv.gen_geom(rng, small=True)
             g['kind'] = kind
+            if t == 3:
+                # blocks of 4 KiB and a payload of a few blocks: every hash level is a single block, so that no walk up the tree runs
+                # off a hash table when a size field claims more than is there
+                for p_ in g['parts']:
+                    p_.update(bl=(12, 12, 12, 12), size=0x2000 + rng.choice([0, 0x123]), db=(2, 2, 12), lv3_tail=0)
             img, info = sv.build(g)[:2]
             from .builders import save as SB
             out.append((f'{kind}#{t}', img, info['fields'], False, lambda image, f, v, info=info, SB=SB: SB.retarget(image, info, f[0], v)))
